@@ -87,7 +87,7 @@ pub async fn reentrant_queries(prov: &Prov, cache: &SolverCache<Prov>, solvables
     let mut held_ids: Vec<SolvableId> = vec![];
     if prov.abandon.get() {
         for &s in solvables.iter().rev().take(2) {
-            let mut fut = Box::pin(cache.get_or_cache_dependencies(s));
+            let mut fut = Box::pin(provider_side(prov, cache.get_or_cache_dependencies(s)));
             if std::future::poll_fn(|cx| std::task::Poll::Ready(std::future::Future::poll(fut.as_mut(), cx))).await.is_pending() {
                 prov.abandoned.set(prov.abandoned.get() + 1);
                 held.push(fut);
@@ -98,7 +98,7 @@ pub async fn reentrant_queries(prov: &Prov, cache: &SolverCache<Prov>, solvables
     for &s in solvables.iter().take(3) {
         let name = u.solvs[s.0 as usize].name;
         // the package being sorted is already cached: must not hit the provider again
-        if let Ok(c) = cache.get_or_cache_candidates(NameId(name)).await {
+        if let Ok(c) = provider_side(prov, cache.get_or_cache_candidates(NameId(name))).await {
             n += 1;
             let exp: Vec<u32> = u.pkgs[name as usize].candidates.clone().unwrap_or_default();
             if c.candidates.iter().map(|x| x.0).collect::<Vec<_>>() != exp {
@@ -110,7 +110,7 @@ pub async fn reentrant_queries(prov: &Prov, cache: &SolverCache<Prov>, solvables
         if held_ids.contains(&s) {
             continue;
         }
-        if let Ok(_d) = cache.get_or_cache_dependencies(s).await {
+        if let Ok(_d) = provider_side(prov, cache.get_or_cache_dependencies(s)).await {
             n += 1;
             if !cache.are_dependencies_available_for(s) {
                 obs.push(format!("dependencies of s{} fetched re-entrantly but reported unavailable", s.0));
@@ -119,13 +119,13 @@ pub async fn reentrant_queries(prov: &Prov, cache: &SolverCache<Prov>, solvables
     }
     // matching / non-matching of a few other version sets (may fetch other packages re-entrantly)
     for v in (0..u.vsets.len() as u32).filter(|v| (*v as usize + solvables.len()) % 3 == 0).take(3) {
-        if let Ok(m) = cache.get_or_cache_matching_candidates(VersionSetId(v)).await {
+        if let Ok(m) = provider_side(prov, cache.get_or_cache_matching_candidates(VersionSetId(v))).await {
             n += 1;
             if m.iter().map(|x| x.0).collect::<Vec<_>>() != rf.cands_vs(v) {
                 obs.push(format!("re-entrant matching candidates of vs{v} differ from filter_candidates"));
             }
         }
-        if let Ok(m) = cache.get_or_cache_non_matching_candidates(VersionSetId(v)).await {
+        if let Ok(m) = provider_side(prov, cache.get_or_cache_non_matching_candidates(VersionSetId(v))).await {
             n += 1;
             if m.iter().map(|x| x.0).collect::<Vec<_>>() != rf.noncands_vs(v) {
                 obs.push(format!("re-entrant non-matching candidates of vs{v} differ from filter_candidates"));
